@@ -78,7 +78,7 @@ Lemma new_batch_init o hwm i remain late :
   let b := new_batch o hwm i remain late in
   b_off b = o /\ b_conn_off b = o /\ b_has_conn b = true.
 Proof.
-  cbn zeta. unfold new_batch. destruct (hwm =? o); [cbn; auto|].
+  cbn zeta. unfold new_batch. destruct (hwm =? o); [destruct (p_discard remain (i, remain)); cbn; auto|].
   destruct (new_msr i remain) as [u m|e m|]; [cbn; auto| |cbn; auto].
   destruct e; cbn; auto.
 Qed.
